@@ -79,7 +79,7 @@ func (a *Real32) ConvertScalar(t ScalarType) Scalar {
   default:
     r := NullScalar(t)
     r.Set(a)
-    return a
+    return r
   }
 }
 func (a *Real32) ConvertMagicScalar(t ScalarType) MagicScalar {
